@@ -426,6 +426,9 @@ def suite_real_lifecycle(report, tier, seed, prop="C12"):
                    (f"drv.run kind={kind} v=5 backoff=10 ctimeout=150 refuse=100000 | start;sleep:30;close;stop;sleep:400;mark:settled;sleep:150;start;sleep:120", kind, "refuse-all"),
                    (f"drv.run kind={kind} v=5 backoff=10 ctimeout=150 | start;waitwire:1;close;start;sleep:400;mark:settled;sleep:150;start;sleep:120", kind, "ok"),
                    (f"drv.run kind={kind} v=5 backoff=10 ctimeout=150 answer=0 | start;waitwire:1;stop;sleep:400;mark:settled;sleep:150", kind, "silent")]
+        # extreme configuration values: the largest durations the builders accept must not kill the event loop
+        corpus += [(f"drv.run kind={kind} v=5 backoff=10 ctimeout=max | start;waitwire:1;stop;sleep:400;mark:settled;sleep:150", kind, "ok"),
+                   (f"drv.run kind={kind} v=5 backoff=max maxbackoff=max ctimeout=150 refuse=1 | start;sleep:100;stop;sleep:400;mark:settled;sleep:150", kind, "refuse-some")]
     cases = corpus + cases
     impl = harness_batch_parallel([c[0] for c in cases])
     mon_ok = True
